@@ -514,7 +514,7 @@ class C06(core.Check):
     )
 
     def gen_cases(self, rng: random.Random, tier: str) -> List[dict]:
-        n = 150 if tier == "quick" else 3000
+        n = 110 if tier == "quick" else 2500
         return [gen_program(rng, tier) for _ in range(n)]
 
     # ------------------------------------------------------------------ implementation
